@@ -11,7 +11,7 @@ import (
 )
 
 var (
-	opsMutate  = []int{opSetBinding, opDelBinding, opSetDeep, opSetPerm, opSetProp, opSetPropDeep, opReplaceBindings, opKillOut}
+	opsMutate  = []int{opSetBinding, opDelBinding, opSetDeep, opSetArrElem, opSetPerm, opSetProp, opSetPropDeep, opReplaceBindings, opKillOut}
 	opsPollute = []int{opPolluteGlobal, opPolluteProto, opKillOut, opReplaceBindings, opSetBinding}
 )
 
@@ -20,6 +20,7 @@ func c10Bindings() match.Bindings {
 		ValPool: []string{"v"}, Leaf: verif.TStr | verif.TF64}))
 	if verif.Choose("deep", 2) == 1 {
 		bs["deep"] = map[string]interface{}{"x": 0.0, "inner": map[string]interface{}{"y": "z"}}
+		bs["arr"] = []interface{}{map[string]interface{}{"q": 1.0}, 2.0}
 	}
 	return bs
 }
